@@ -11,7 +11,7 @@ const char *const OP_NAMES[OP__COUNT] = {
     "get_name", "get_string", "get_raw", "get_integer", "get_boolean", "get_double", "get_bytes",
     "string_equals", "print", "to_string", "to_string_null", "to_writer",
     "REWRITE", "SCRIBBLE", "ABANDON",
-    "enter", "step", "leave", "observe", "lookup", "lookup_ensure", "raw", "towriter", "streq",
+    "enter", "step", "leave", "observe", "lookup", "lookup_ensure", "raw", "towriter", "streq", "restart",
     "w_init", "w_reset", "w_object_begin", "w_object_end", "w_array_begin", "w_array_end", "w_boolean", "w_integer", "w_double",
     "w_string", "w_string_with_len", "w_name", "w_bytes", "w_raw", "w_verify", "w_counter", "w_string_null", "w_raw_null", "w_parser_to_writer",
     "choice",
